@@ -64,16 +64,10 @@ def nontrivial(it):
     return sum(1 for l in it["lines"] if l.startswith("r ") and " bar " in l) >= 2
 
 
-def keyfn(v):
-    if "waits returned true" in v or "more than one 'last'" in v:
-        return "barrier-last-flag-mc"
-    return None
-
-
 def run(ctx):
     BIG[0] = ctx.tier == "thorough"
     ctx.cov["rule"] = ("programs of 1-6 actors calling wait on 1-2 barriers of size 1..6, 1-6 waits per actor separated by dyadic "
                        "sleeps (arrival orders vary); classes: reuse over several rounds with more actors than n, n = all actors "
                        "in a chosen order, random (may end blocked: incomplete last group); MC: 2-3 actors, all interleavings. "
                        "non-trivial = accepted trace in which at least 2 waits returned (MC: complete trace)")
-    synclib.standard_run(ctx, gen_normal, gen_mc, nontrivial, quick=(100, 3), thorough=(1500, 12), keyfn=keyfn)
+    synclib.standard_run(ctx, gen_normal, gen_mc, nontrivial, quick=(100, 3), thorough=(1500, 12))
